@@ -89,8 +89,10 @@ MUTANTS = [
     // reserve again"""},
     {"id": "c02-next-load-relaxed", "props": ["C02"], "file": UQ,
      "desc": "consumer loads next with relaxed instead of acquire",
-     "old": "Node* const next_node = _consumer->next.load(std::memory_order_acquire);",
-     "new": "Node* const next_node = _consumer->next.load(std::memory_order_relaxed);"},
+     "old": """    // the buffer is empty check if another buffer exists
+    Node* next_node = _consumer->next.load(std::memory_order_acquire);""",
+     "new": """    // the buffer is empty check if another buffer exists
+    Node* next_node = _consumer->next.load(std::memory_order_relaxed);"""},
     {"id": "c02-delete-before-commit-read", "props": ["C02"], "file": UQ,
      "desc": "old node deleted before its capacity is read (use after free)",
      "old": """    auto const previous_capacity = _consumer->bounded_queue.capacity();
@@ -233,14 +235,13 @@ MUTANTS += [
     # ---------------- C08 ----------------
     {"id": "c08-count-control-events", "props": ["C08"], "file": LG,
      "desc": "dropping path counts control events (flush etc.) as dropped messages too",
-     "old": """        // not enough space to push to queue message is dropped
-        if (macro_metadata->event() == MacroMetadata::Event::Log)
+     "old": """        if ((macro_metadata->event() == MacroMetadata::Event::Log) ||
+            (macro_metadata->event() == MacroMetadata::Event::LogWithRuntimeMetadata))
         {
           thread_context->increment_failure_counter();
         }
         return false;""",
-     "new": """        // not enough space to push to queue message is dropped
-        thread_context->increment_failure_counter();
+     "new": """        thread_context->increment_failure_counter();
         return false;"""},
     {"id": "c08-lost-update-counter", "props": ["C08"], "file": TCM,
      "desc": "failure counter read and reset non-atomically AND reset only when below 2 (drops under-reported)",
